@@ -16,6 +16,58 @@ KINDS = ['Indexed', 'IndexedWithPostBase', 'LiteralWithNameRef', 'LiteralWithPos
 INT = r'(0b[01_]+|0x[0-9a-fA-F_]+|\d[\d_]*)'
 
 
+def top_statements(body):
+    """split a block body into its top-level statements (brace/paren depth 0; `;` or a closing `}` of a block statement)"""
+    out, cur, depth, i, n = [], [], 0, 0, len(body)
+    while i < n:
+        c = body[i]
+        if c == '"':
+            j = i + 1
+            while j < n and body[j] != '"':
+                j += 2 if body[j] == '\\' else 1
+            cur.append(body[i:j + 1])
+            i = j + 1
+            continue
+        cur.append(c)
+        if c in '({[':
+            depth += 1
+        elif c in ')}]':
+            depth -= 1
+            if c == '}' and depth == 0:
+                # a block statement ends here unless an `else`, `;`, `.` or `?` follows
+                rest = body[i + 1:].lstrip()
+                if not (rest.startswith('else') or rest.startswith(';') or rest.startswith('.') or rest.startswith('?')):
+                    out.append(''.join(cur).strip())
+                    cur = []
+        elif c == ';' and depth == 0:
+            out.append(''.join(cur).strip())
+            cur = []
+        i += 1
+    if ''.join(cur).strip():
+        out.append(''.join(cur).strip())
+    return [re.sub(r'\s+', ' ', x) for x in out if x]
+
+
+def strict_match_shape(src, fn, scrutinee_re, arm_re, what):
+    """the body of `fn` must be ONE match on the given scrutinee whose arms are all of the given literal shape
+    plus a final `_ => None`: no guards, no bindings, no other statements"""
+    body, span = src.fn_body(fn)
+    m = re.match(r'\s*match\s+' + scrutinee_re + r'\s*\{', body)
+    if not m:
+        raise AnchorLost(what + ': scrutinee')
+    i = m.end() - 1
+    from rustsrc import match_close
+    j = match_close(body, i)
+    if body[j + 1:].strip():
+        raise AnchorLost(what + ': statements after the match')
+    arms = body[i + 1:j]
+    rest = re.sub(arm_re, '', arms)
+    rest = re.sub(r'_\s*=>\s*None\s*,?', '', rest, count=1)
+    if rest.strip():
+        raise AnchorLost(what + ': an arm that is not a literal pattern: ' + ' '.join(rest.split())[:80])
+    return span
+
+
 def impl_fn(src, ty, fn):
     blk, span, m = src.item_block(r'\bimpl\s+' + ty + r'\s*\{')
     # find fn inside the impl block
@@ -157,6 +209,28 @@ def extract(repo):
     f['too_long_strict'] = m.group(1) == '>'
     if body.find('mem_size +=') > body.find('if mem_size') or body.find('if mem_size') > body.find('fields.push'):
         raise AnchorLost('decode_stateless accumulate/compare/push order')
+    # the statement skeleton of the whole function and of the loop body: nothing may be added (an early break, a cap on
+    # the number of fields, a second return Ok ...)
+    from rustsrc import match_close
+    li = body.find('{', loop)
+    lj = match_close(body, li)
+    loop_stmts = top_statements(body[li + 1:lj])
+    shape = [r'^let field = match HeaderBlockField::decode\(buf\.chunk\(\)\[0\]\) \{', r'^mem_size \+= field\.mem_size\(\) as u64;$',
+             r'^if mem_size (>|>=) max_size \{ return Err\(DecoderError::HeaderTooLong\(mem_size\)\); \}$', r'^fields\.push\(field\);$']
+    if len(loop_stmts) != len(shape) or not all(re.search(p_, s_) for p_, s_ in zip(shape, loop_stmts)):
+        raise AnchorLost('decode_stateless loop body is not [decode field; add size; compare; push]: ' + ' | '.join(x[:40] for x in loop_stmts))
+    if re.search(r'\b(break|continue)\b', body):
+        raise AnchorLost('decode_stateless: break/continue')
+    fn_stmts = top_statements(body[:loop] + ' LOOP; ' + body[lj + 1:])
+    fshape = [r'^let prefix = HeaderPrefix::decode\(buf\)\?;$', r'^if prefix\.encoded_insert_count\(\) != 0 \{', r'^prefix\.base_without_refs\(\)\?;$',
+              r'^let mut mem_size = 0;$', r'^let mut fields = Vec::new\(\);$', r'^LOOP;$',
+              r'^Ok\(Decoded \{ fields, mem_size, dyn_ref: false, \}\)$']
+    want = [p_ for p_ in fshape if not ((p_.startswith(r'^if prefix') and not f['ric_nonzero_rejected']) or
+                                        (p_.startswith(r'^prefix\.base') and not f['base_checked']))]
+    if len(fn_stmts) != len(want) or not all(re.search(p_, s_) for p_, s_ in zip(want, fn_stmts)):
+        raise AnchorLost('decode_stateless statement skeleton: ' + ' | '.join(x[:40] for x in fn_stmts))
+    if body.count('Ok(') != 1:
+        raise AnchorLost('decode_stateless: more than one Ok(..)')
 
     # ---- encode_stateless
     enc = Source(repo + '/h3/src/qpack/encoder.rs')
@@ -173,6 +247,21 @@ def extract(repo):
              body.find('size += field.mem_size() as u64')]
     if -1 in order or order != sorted(order):
         raise AnchorLost('encode_stateless lookup order')
+
+    if re.search(r'\b(break|continue|return)\b', body) or body.count('Ok(') != 1:
+        raise AnchorLost('encode_stateless: early exit')
+    # ---- static_.rs: find / find_name are single matches over literal patterns only (gen_static reads the arms; a guarded
+    #      or binding arm would be invisible to it), get is the plain slice lookup
+    st = Source(repo + '/h3/src/qpack/static_.rs')
+    BS = r'b"(?:[^"\\\\]|\\\\.)*"'
+    spans['static_find_shape'] = strict_match_shape(
+        st, 'find', r'\(\s*&field\.name\[\.\.\]\s*,\s*&field\.value\[\.\.\]\s*\)',
+        r'\(\s*' + BS + r'\s*,\s*' + BS + r'\s*,?\s*\)\s*=>\s*\{?\s*Some\(\s*\d+\s*\)\s*\}?\s*,?', 'StaticTable::find')
+    spans['static_find_name_shape'] = strict_match_shape(
+        st, 'find_name', r'name', BS + r'\s*=>\s*\{?\s*Some\(\s*\d+\s*\)\s*\}?\s*,?', 'StaticTable::find_name')
+    gbody, spans['static_get_shape'] = st.fn_body('get')
+    if re.sub(r'\s+', '', gbody) != 'matchPREDEFINED_HEADERS.get(index){Some(f)=>Ok(f),None=>Err(Error::Unknown(index)),}':
+        raise AnchorLost('StaticTable::get is not the plain slice lookup')
 
     # ---- field.rs
     fld = Source(repo + '/h3/src/qpack/field.rs')
